@@ -19,6 +19,12 @@
      of calls are the single-call answers, at every position and in every order — true by construction of the model;
      that the Go code is such a function (no result aliasing a shared buffer, no shared scratch state) is what the
      harness checks with sessions of calls whose results are kept uncopied and with concurrent goroutines;
+   - C02_accounts_*: histories of account operations (Register, Login, CheckPasswd, ChangePasswd at the bbs layer and
+     through the gin handlers): for ALL histories the password an accepted Register / ChangePasswd set — the very bytes
+     the entry point was given, bytes >= 0x80 included — opens the account at every entry point that asks for one, the
+     stored hash is crypt(3) of exactly those bytes, and no operation moves another account's hash; that the four bbs
+     entry points and the five handlers ARE the model's operations (none of them transcodes, trims, folds or truncates
+     the password on its way down) is what the harness checks with op 7;
    - C02_reject_partial: "rejected for any differing password" CANNOT be proved (it would say that DES has no
      colliding keys here); it is exercised by differential testing only. *)
 From Verif Require Import Base.Common Gen.CryptTab Model.C02 Model.C02_DesSpec Proofs.C02.
@@ -241,3 +247,77 @@ Theorem C02_order_independent : forall calls calls', Permutation calls calls' ->
   Permutation (combine calls (session calls)) (combine calls' (session calls')).
 Proof. exact order_independent. Qed.
 Print Assumptions C02_order_independent.
+
+(* THE PASSWORD AS THE SERVER'S ENTRY POINTS HAND IT ON. An account is its stored hash; a history is any list of
+   Register / Login / CheckPasswd / ChangePasswd operations on any accounts (Model/C02.v: aop, astep, after, arun — what
+   bbs.Register, bbs.Login, bbs.CheckPasswd, bbs.ChangePasswd and the gin handlers in front of them do with the password
+   string: []byte(passwd), unchanged, into cmbbs.GenPasswd / cmbbs.CheckPasswd).
+
+   No operation of a history crashes (stored hashes and drawn salts are 7-bit), and the answers are one per operation. *)
+Theorem C02_accounts_total : forall ops st, wf_accounts st -> Forall op_ok ops ->
+  (exists l, arun st ops = Ok l /\ length l = length ops) /\
+  (exists st', after st ops = Ok st' /\ wf_accounts st' /\ length st' = length st).
+Proof. exact accounts_total. Qed.
+Print Assumptions C02_accounts_total.
+
+(* Every entry point that asks for a password makes ONE comparison: cmbbs.CheckPasswd(stored hash of the account, the
+   bytes it was given). Login and CheckPasswd answer it and change nothing; ChangePasswd is accepted exactly when it is
+   true of the old password; an account without a record accepts nothing. *)
+Theorem C02_accounts_entry_points_agree : forall st u q,
+  astep st (ALogin u q) = res_map (fun b => (st, b)) (accepts st u q) /\
+  astep st (ACheck u q) = res_map (fun b => (st, b)) (accepts st u q) /\
+  (forall new s, salt7 s -> wf_accounts st ->
+     exists b st', accepts st u q = Ok b /\ astep st (AChange u q new s) = Ok (st', b)) /\
+  (forall h, stored_of st u = Some h -> accepts st u q = check_passwd h q) /\
+  (stored_of st u = None -> accepts st u q = Ok false).
+Proof. exact entry_points_agree. Qed.
+Print Assumptions C02_accounts_entry_points_agree.
+
+(* An operation that is refused changes nothing; an operation changes at most the hash of its own account, and only a
+   Register / ChangePasswd of that account can. *)
+Theorem C02_accounts_frame : forall st o st' b, astep st o = Ok (st', b) ->
+  (b = false -> st' = st) /\
+  (forall v, sets v o = false -> stored_of st' v = stored_of st v) /\
+  (forall v, v <> target o -> stored_of st' v = stored_of st v).
+Proof. exact astep_frame. Qed.
+Print Assumptions C02_accounts_frame.
+
+(* SET, THEN USE — for ALL histories. [pre]: any operations; [o]: a Register or ChangePasswd that gives account u the
+   password p and is accepted; [mid]: any operations that are not a Register / ChangePasswd of u (everything other
+   accounts do, u's own logins and checks, right or wrong). Then
+   - the stored hash of u is GenPasswd(p) with the salt drawn: p's own bytes, whatever they are;
+   - every entry point answers CheckPasswd(that hash, q) on the bytes q it is given; q is accepted exactly if re-hashing
+     q with the stored hash as salt reproduces it (the reject side: C02_reject_partial);
+   - if p is not the empty password: p, and every q with p's key block (bytes after the 8th, after a NUL, bit 7), is
+     accepted by Login, by CheckPasswd and as the old password of the next ChangePasswd;
+   - if the salt is two characters of the crypt alphabet, the stored hash is textbook crypt(3) of p plus NUL. *)
+Theorem C02_accounts_set_then_verify : forall st pre o u p salt mid st1 st2,
+  wf_accounts st -> Forall op_ok pre -> Forall op_ok mid -> salt7 salt ->
+  sets_password o u p salt ->
+  after st pre = Ok st1 -> astep st1 o = Ok (st2, true) ->
+  Forall (fun x => sets u x = false) mid ->
+  exists h st3,
+    gen_passwd p salt = Ok h /\ after st (pre ++ o :: mid) = Ok st3 /\ stored_of st3 u = Some h /\
+    (forall q, accepts st3 u q = check_passwd h q) /\
+    (forall q, accepts st3 u q = Ok true <-> fcrypt q h = Ok h) /\
+    (real_password p -> forall q, keyblock q = keyblock p ->
+       accepts st3 u q = Ok true /\
+       astep st3 (ALogin u q) = Ok (st3, true) /\ astep st3 (ACheck u q) = Ok (st3, true) /\
+       forall new s, salt7 s -> exists st4, astep st3 (AChange u q new s) = Ok (st4, true)) /\
+    (real_password p -> forall c, crypt p salt = Some c -> h = c ++ [0]).
+Proof. exact set_then_verify. Qed.
+Print Assumptions C02_accounts_set_then_verify.
+
+(* The same read off the answers of the whole history, as the harness sees them (op 7): after any [pre], an accepted
+   set of p on u and any [mid] that does not set u's password again, a Login / CheckPasswd of u with p (or any q with
+   p's key block) is answered "accepted". *)
+Theorem C02_accounts_set_then_login : forall st pre o u p salt mid q vop,
+  wf_accounts st -> Forall op_ok pre -> Forall op_ok mid -> salt7 salt -> real_password p ->
+  sets_password o u p salt ->
+  (exists st1 st2, after st pre = Ok st1 /\ astep st1 o = Ok (st2, true)) ->
+  Forall (fun x => sets u x = false) mid ->
+  keyblock q = keyblock p ->
+  (vop = ALogin u q \/ vop = ACheck u q) ->
+  exists l st3, arun st (pre ++ o :: mid ++ [vop]) = Ok (l ++ [(true, st3)]) /\ length l = S (length pre + length mid).
+Proof. exact set_then_login_history. Qed.
+Print Assumptions C02_accounts_set_then_login.
